@@ -46,6 +46,9 @@ Clauses(t) ==
      <<"outline-is-model-blend", BadGlyphs(t) = {}>>,
      <<"kerning-is-model-blend", \A k \in 1..Len(t.instKern) : t.instKern[k][3] = BlendK(t, k)>>,
      <<"info-is-model-blend", \A a \in DOMAIN t.instInfo : t.instInfo[a] = BlendI(t, a)>>,
+     \* groups (kerning groups and ordinary ones alike) keep their order; members named by an active rule are exchanged
+     <<"groups-follow-swaps", \A k \in 1..Len(t.groups) :
+                                 t.instGroups[k][2] = [j \in 1..Len(t.groups[k][2]) |-> SwapName(t.swaps, t.groups[k][2][j])]>>,
      <<"sources-untouched", t.srcSame>>,
      <<"repeatable", t.repeatSame>>,
      <<"order-independent", t.orderSame>>,
